@@ -600,19 +600,20 @@ static Cfg make_cfg(const std::string& wl, long inst, uint64_t seed, int size, c
   vh::Rng rng(seed * 7919ULL + (uint64_t)inst * 104729ULL + std::hash<std::string>()(wl) % 1000003ULL);
   Cfg c;
   c.wl = wl; c.scratch = scratch; c.data_seed = rng.next() % 1000000007ULL;
-  const std::vector<int> Ns = size ? std::vector<int>{ 16, 24, 32 } : std::vector<int>{ 12, 16, 24 };
-  c.N = rng.pick(Ns);
-  c.R = rng.range(2, size ? 4 : 3);
-  c.span = (c.R >= 3 && rng.range(0, 2) == 0) ? 3 : 1;
-  c.maxDelta = c.span == 3 ? (c.R >= 4 && rng.coin() ? 4 : 1) : c.R - 1;
-  if (c.maxDelta > c.R - 1) c.maxDelta = 1;
-  c.mash = ((c.N / 2) % 2 == 0 && rng.range(0, 3) == 0) ? 2 : 1;
+  // small geometries: every hook event is one step of the trace validation, so a run is kept to a few thousand events
   const bool tof = rng.range(0, 2) == 0;
+  if (wl == "ll") { c.N = rng.pick(size ? std::vector<int>{ 12, 16, 24 } : std::vector<int>{ 8, 12, 16 }); c.R = (tof || c.N > 16) ? 2 : rng.range(2, 3); if (tof && c.N > (size ? 16 : 12)) c.N = 12; }
+  else if (wl == "proj") { c.N = rng.pick(size ? std::vector<int>{ 16, 24, 32 } : std::vector<int>{ 12, 16, 24 }); c.R = tof ? 2 : rng.range(2, size ? 4 : 3); if (tof && c.N > 16) c.N = 16; }
+  else if (wl == "lm") { c.N = rng.pick(std::vector<int>{ 12, 16 }); c.R = rng.range(2, 3); }
+  else { c.N = rng.pick(std::vector<int>{ 12, 16, 24 }); c.R = rng.range(2, 3); }
+  c.span = (c.R >= 3 && rng.range(0, 2) == 0) ? 3 : 1;
+  c.maxDelta = c.span == 3 ? 1 : c.R - 1;
+  c.mash = ((c.N / 2) % 2 == 0 && rng.range(0, 3) == 0) ? 2 : 1;
   c.maxT = tof ? 5 : 0; c.tofMash = tof ? (rng.coin() ? 1 : 2) : 0;
   c.numTang = std::max(3, c.N / 2 - 1) | 1;
   c.nxy = 2 * (c.N / 4) + 3; c.nz = 2 * c.R - 1;
   c.ntl = rng.range(1, 2);
-  c.sym = rng.range(0, 3) == 0 ? rng.range(0, 31) : 31;
+  c.sym = (!tof && rng.range(0, 3) == 0) ? rng.range(0, 31) : 31;
   c.basic_only = rng.range(0, 3) != 0;
   c.file_io = rng.coin();
   c.has_add = rng.coin(); c.has_norm = rng.coin();
@@ -621,8 +622,8 @@ static Cfg make_cfg(const std::string& wl, long inst, uint64_t seed, int size, c
   c.subsets = (nviews % 4 == 0 && rng.coin()) ? 2 : 1;
   if (wl == "lazy") { c.geom = rng.range(0, 2) == 0 ? "BlocksOnCylindrical" : "Cylindrical"; c.span = 1; c.maxDelta = c.R - 1; c.mash = 1; c.maxT = 0; c.tofMash = 0; c.numTang = c.N - 1;
     if (c.geom != "Cylindrical") c.N = rng.coin() ? 16 : 24; }
-  if (wl == "scat") { c.N = rng.coin() ? 16 : 24; c.R = 2; c.numTang = 7; c.use_cache = rng.range(0, 3) != 0; }
-  if (wl == "lm") { c.mash = 1; c.span = 1; c.maxDelta = c.R - 1; c.file_io = false; c.subsets = ((c.N / 2) % 4 == 0 && rng.coin()) ? 2 : 1; }
+  if (wl == "scat") { c.N = rng.coin() ? 16 : 24; c.R = 2; c.numTang = 7; c.use_cache = rng.range(0, 3) != 0; c.maxT = 0; c.tofMash = 0; }
+  if (wl == "lm") { c.mash = 1; c.span = 1; c.maxDelta = c.R - 1; c.file_io = false; c.subsets = ((c.N / 2) % 4 == 0 && rng.coin()) ? 2 : 1; if (c.N > 12 || c.R > 2) c.basic_only = true; }
   return c;
 }
 
